@@ -3628,4 +3628,259 @@ theorem u64Rev_gen (x : Nat) (hx : x < 2 ^ 64) : u64Rev x = octRevN 8 x := by
 
 end Bits
 
+
+/-! ## uNNWeight on the arguments used by the SAFE editions -/
+
+namespace Bits
+
+theorem pop32_ones : (List.range 33).all (fun b => popN 32 (2 ^ 32 - 2 ^ b) == 32 - b) = true := by
+  decide +kernel
+theorem pop64_ones : (List.range 65).all (fun b => popN 64 (2 ^ 64 - 2 ^ b) == 64 - b) = true := by
+  decide +kernel
+
+theorem u32Weight_ones_pop (b : Nat) (hb : b ≤ 32) :
+    u32Weight (2 ^ 32 - 2 ^ b) = popN 32 (2 ^ 32 - 2 ^ b) := by
+  have := List.all_eq_true.mp pop32_ones b (List.mem_range.mpr (by omega))
+  rw [u32Weight_ones b hb, eq_of_beq this]
+theorem u64Weight_ones_pop (b : Nat) (hb : b ≤ 64) :
+    u64Weight (2 ^ 64 - 2 ^ b) = popN 64 (2 ^ 64 - 2 ^ b) := by
+  have := List.all_eq_true.mp pop64_ones b (List.mem_range.mpr (by omega))
+  rw [u64Weight_ones b hb, eq_of_beq this]
+
+end Bits
+
+
+/-! ## uNNWeight, all words: lines 1–3 act lane by lane, the tail adds the octet counts -/
+
+namespace Bits
+
+/-- shifting and masking a two-lane word lane by lane: the bits that the shift carries across the
+    lane boundary are removed by a mask that is clear in the top `s` bits of the lane -/
+theorem split_shr_and {L s lo hi m m' : Nat} (hlo : lo < 2 ^ L) (hm : m < 2 ^ (L - s)) (hs : s ≤ L) :
+    ((lo + 2 ^ L * hi) >>> s) &&& (m + 2 ^ L * m') =
+      ((lo >>> s) &&& m) + 2 ^ L * ((hi >>> s) &&& m') := by
+  have hmL : m < 2 ^ L := Nat.lt_of_lt_of_le hm (Nat.pow_le_pow_right (by decide) (by omega))
+  have hA : (lo >>> s) &&& m < 2 ^ L := Nat.lt_of_le_of_lt Nat.and_le_right hmL
+  apply Nat.eq_of_testBit_eq
+  intro j
+  rw [Nat.add_comm ((lo >>> s) &&& m), Nat.testBit_two_pow_mul_add _ hA, Nat.testBit_and,
+    Nat.testBit_shiftRight, Nat.add_comm lo, Nat.testBit_two_pow_mul_add _ hlo,
+    Nat.add_comm m, Nat.testBit_two_pow_mul_add _ hmL]
+  by_cases c : j < L
+  · rw [if_pos c, if_pos c, Nat.testBit_and, Nat.testBit_shiftRight]
+    by_cases c2 : s + j < L
+    · rw [if_pos c2]
+    · have : m.testBit j = false :=
+        Nat.testBit_lt_two_pow (Nat.lt_of_lt_of_le hm (Nat.pow_le_pow_right (by decide) (by omega)))
+      rw [this]; simp
+  · have c2 : ¬ s + j < L := by omega
+    have e : s + j - L = s + (j - L) := by omega
+    rw [if_neg c, if_neg c, if_neg c2, Nat.testBit_and, Nat.testBit_shiftRight, e]
+
+theorem split_and {L lo hi m m' : Nat} (hlo : lo < 2 ^ L) (hm : m < 2 ^ L) :
+    (lo + 2 ^ L * hi) &&& (m + 2 ^ L * m') = (lo &&& m) + 2 ^ L * (hi &&& m') := by
+  have := split_shr_and (s := 0) (hi := hi) (m' := m') hlo (by simpa using hm) (Nat.zero_le _)
+  simpa using this
+
+/-- a mask below 2^k only sees the argument modulo 2^k -/
+theorem and_low {k y m : Nat} (hm : m < 2 ^ k) : y &&& m = (y % 2 ^ k) &&& m := by
+  have h1 : (y &&& m) % 2 ^ k = y &&& m :=
+    Nat.mod_eq_of_lt (Nat.lt_of_le_of_lt Nat.and_le_right hm)
+  rw [← h1, Nat.and_mod_two_pow, Nat.mod_eq_of_lt hm]
+
+/-- lines 1–3 of uNNWeight on one lane -/
+def wg1 (m5 y : Nat) : Nat := y - ((y >>> 1) &&& m5)
+def wg2 (m3 y : Nat) : Nat := (y &&& m3) + ((y >>> 2) &&& m3)
+def wg3 (mf y : Nat) : Nat := (y + (y >>> 4)) &&& mf
+def wT16 (y : Nat) : Nat := wg3 0x0F0F (wg2 0x3333 (wg1 0x5555 y))
+
+theorem u16Weight_lanes (y : Nat) (hy : y < 65536) :
+    u16Weight y = ((wT16 y + wT16 y / 256) % 65536) % 32 := by
+  unfold u16Weight wT16 wg3 wg2 wg1
+  simp only [Nat.shiftRight_eq_div_pow]
+  have e1f : (0x001F : Nat) = 2 ^ 5 - 1 := by norm_num
+  rw [e1f, Nat.and_two_pow_sub_one_eq_mod]
+  have ha : y / 2 ^ 1 &&& 0x5555 ≤ y := Nat.le_trans Nat.and_le_left (Nat.div_le_self _ _)
+  have e1 : (y + (65536 - (y / 2 ^ 1 &&& 21845))) % 65536 = y - (y / 2 ^ 1 &&& 21845) := by omega
+  rw [e1]
+  generalize y - (y / 2 ^ 1 &&& 21845) = s1
+  have hb1 : s1 &&& 13107 ≤ 13107 := Nat.and_le_right
+  have hb2 : s1 / 2 ^ 2 &&& 13107 ≤ 13107 := Nat.and_le_right
+  have e2 : ((s1 &&& 13107) + (s1 / 2 ^ 2 &&& 13107)) % 65536 = (s1 &&& 13107) + (s1 / 2 ^ 2 &&& 13107) := by
+    omega
+  rw [e2]
+  generalize (s1 &&& 13107) + (s1 / 2 ^ 2 &&& 13107) = s2
+  have hb3 : (s2 + s2 / 2 ^ 4) &&& 3855 ≤ 3855 := Nat.and_le_right
+  have e3 : ((s2 + s2 / 2 ^ 4) &&& 3855) % 65536 = (s2 + s2 / 2 ^ 4) &&& 3855 := by omega
+  rw [e3]
+
+
+/-- lines 1–3 of u32Weight act on the two 16-bit lanes independently -/
+theorem wlanes32 (lo hi : Nat) (hlo : lo < 65536) (hhi : hi < 65536) :
+    (((wg2 858993459 ((lo + 65536 * hi + (4294967296 - ((lo + 65536 * hi) >>> 1 &&& 1431655765))) % 4294967296)) % 4294967296
+      + ((wg2 858993459 ((lo + 65536 * hi + (4294967296 - ((lo + 65536 * hi) >>> 1 &&& 1431655765))) % 4294967296)) % 4294967296) >>> 4) % 4294967296) &&& 252645135
+      = wg3 3855 (wg2 13107 (wg1 21845 lo)) + 65536 * wg3 3855 (wg2 13107 (wg1 21845 hi)) := by
+  have eB : (65536 : Nat) = 2 ^ 16 := by norm_num
+  -- line 1
+  have h1 : (lo + 65536 * hi) >>> 1 &&& 1431655765 = (lo >>> 1 &&& 21845) + 65536 * (hi >>> 1 &&& 21845) := by
+    have := split_shr_and (L := 16) (s := 1) (lo := lo) (hi := hi) (m := 21845) (m' := 21845)
+      (by rw [← eB]; exact hlo) (by norm_num) (by norm_num)
+    rw [← eB] at this
+    have e : (1431655765 : Nat) = 21845 + 65536 * 21845 := by norm_num
+    rw [e]; exact this
+  have ha : lo >>> 1 &&& 21845 ≤ lo := Nat.le_trans Nat.and_le_left (Nat.shiftRight_le _ _)
+  have hb : hi >>> 1 &&& 21845 ≤ hi := Nat.le_trans Nat.and_le_left (Nat.shiftRight_le _ _)
+  have e1 : (lo + 65536 * hi + (4294967296 - ((lo + 65536 * hi) >>> 1 &&& 1431655765))) % 4294967296
+      = wg1 21845 lo + 65536 * wg1 21845 hi := by
+    rw [h1]; unfold wg1; omega
+  rw [e1]
+  have hp : wg1 21845 lo < 65536 := by unfold wg1; omega
+  have hq : wg1 21845 hi < 65536 := by unfold wg1; omega
+  generalize wg1 21845 lo = p at *
+  generalize wg1 21845 hi = q at *
+  -- line 2
+  have h2a : (p + 65536 * q) &&& 858993459 = (p &&& 13107) + 65536 * (q &&& 13107) := by
+    have := split_and (L := 16) (lo := p) (hi := q) (m := 13107) (m' := 13107)
+      (by rw [← eB]; exact hp) (by norm_num)
+    rw [← eB] at this
+    have e : (858993459 : Nat) = 13107 + 65536 * 13107 := by norm_num
+    rw [e]; exact this
+  have h2b : (p + 65536 * q) >>> 2 &&& 858993459 = (p >>> 2 &&& 13107) + 65536 * (q >>> 2 &&& 13107) := by
+    have := split_shr_and (L := 16) (s := 2) (lo := p) (hi := q) (m := 13107) (m' := 13107)
+      (by rw [← eB]; exact hp) (by norm_num) (by norm_num)
+    rw [← eB] at this
+    have e : (858993459 : Nat) = 13107 + 65536 * 13107 := by norm_num
+    rw [e]; exact this
+  have b1 : p &&& 13107 ≤ 13107 := Nat.and_le_right
+  have b2 : p >>> 2 &&& 13107 ≤ 13107 := Nat.and_le_right
+  have b3 : q &&& 13107 ≤ 13107 := Nat.and_le_right
+  have b4 : q >>> 2 &&& 13107 ≤ 13107 := Nat.and_le_right
+  have n1 : (q &&& 13107) % 16 ≤ 3 := by
+    have := @Nat.and_mod_two_pow q 13107 4
+    have h3 : q % 2 ^ 4 &&& 13107 % 2 ^ 4 ≤ 13107 % 2 ^ 4 := Nat.and_le_right
+    norm_num at this h3; omega
+  have n2 : (q >>> 2 &&& 13107) % 16 ≤ 3 := by
+    have := @Nat.and_mod_two_pow (q >>> 2) 13107 4
+    have h3 : (q >>> 2) % 2 ^ 4 &&& 13107 % 2 ^ 4 ≤ 13107 % 2 ^ 4 := Nat.and_le_right
+    norm_num at this h3; omega
+  have e2 : (wg2 858993459 (p + 65536 * q)) % 4294967296 = wg2 13107 p + 65536 * wg2 13107 q := by
+    unfold wg2; rw [h2a, h2b]; omega
+  have hb' : wg2 13107 p ≤ 2 * 13107 := by unfold wg2; omega
+  have hc' : wg2 13107 q ≤ 2 * 13107 := by unfold wg2; omega
+  have hc16 : wg2 13107 q % 16 ≤ 6 := by unfold wg2; omega
+  rw [e2]
+  generalize wg2 13107 p = b at *
+  generalize wg2 13107 q = c at *
+  -- line 3
+  have e3 : b + 65536 * c + (b + 65536 * c) >>> 4 = (b + b / 16 + 4096 * (c % 16)) + 65536 * (c + c / 16) := by
+    rw [Nat.shiftRight_eq_div_pow]; omega
+  have hlo' : b + b / 16 + 4096 * (c % 16) < 65536 := by omega
+  have h3 : ((b + b / 16 + 4096 * (c % 16)) + 65536 * (c + c / 16)) &&& 252645135
+      = ((b + b / 16 + 4096 * (c % 16)) &&& 3855) + 65536 * ((c + c / 16) &&& 3855) := by
+    have := split_and (L := 16) (lo := b + b / 16 + 4096 * (c % 16)) (hi := c + c / 16) (m := 3855)
+      (m' := 3855) (by rw [← eB]; exact hlo') (by norm_num)
+    rw [← eB] at this
+    have e : (252645135 : Nat) = 3855 + 65536 * 3855 := by norm_num
+    rw [e]; exact this
+  have h4 : (b + b / 16 + 4096 * (c % 16)) &&& 3855 = (b + b / 16) &&& 3855 := by
+    have eP : (4096 : Nat) = 2 ^ 12 := by norm_num
+    rw [and_low (k := 12) (y := b + b / 16 + 4096 * (c % 16)) (by norm_num),
+      and_low (k := 12) (y := b + b / 16) (by norm_num), ← eP]
+    congr 1
+    omega
+  rw [e3, Nat.mod_eq_of_lt (by omega), h3, h4]
+  unfold wg3
+  rw [Nat.shiftRight_eq_div_pow, Nat.shiftRight_eq_div_pow]
+
+theorem tail32 (tl th : Nat) (b1 : tl ≤ 3855) (b2 : tl % 256 ≤ 15) (b3 : th ≤ 3855) (b4 : th % 256 ≤ 15) :
+    ((tl + 65536 * th + (tl + 65536 * th) / 256) % 4294967296 +
+      (tl + 65536 * th + (tl + 65536 * th) / 256) % 4294967296 / 65536) % 4294967296 % 64
+    = (tl + tl / 256) % 65536 % 32 + (th + th / 256) % 65536 % 32 := by
+  obtain ⟨c0, c1, rfl, h0, h1⟩ : ∃ c0 c1, tl = c0 + 256 * c1 ∧ c0 ≤ 15 ∧ c1 ≤ 15 :=
+    ⟨tl % 256, tl / 256, by omega, by omega, by omega⟩
+  obtain ⟨c2, c3, rfl, h2, h3⟩ : ∃ c2 c3, th = c2 + 256 * c3 ∧ c2 ≤ 15 ∧ c3 ≤ 15 :=
+    ⟨th % 256, th / 256, by omega, by omega, by omega⟩
+  have e1 : (c0 + 256 * c1 + 65536 * (c2 + 256 * c3)) / 256 = c1 + 256 * c2 + 65536 * c3 := by omega
+  rw [e1]
+  have e2 : (c0 + 256 * c1 + 65536 * (c2 + 256 * c3) + (c1 + 256 * c2 + 65536 * c3)) % 4294967296
+      = (c0 + c1) + 256 * (c1 + c2) + 65536 * (c2 + c3) + 16777216 * c3 := by omega
+  rw [e2]
+  have e3 : ((c0 + c1) + 256 * (c1 + c2) + 65536 * (c2 + c3) + 16777216 * c3) / 65536
+      = (c2 + c3) + 256 * c3 := by omega
+  rw [e3]
+  have e4 : (c0 + 256 * c1) / 256 = c1 := by omega
+  have e5 : (c2 + 256 * c3) / 256 = c3 := by omega
+  rw [e4, e5]
+  have e6 : (c0 + 256 * c1 + c1) % 65536 % 32 = c0 + c1 := by omega
+  have e7 : (c2 + 256 * c3 + c3) % 65536 % 32 = c2 + c3 := by omega
+  have e8 : (c0 + c1 + 256 * (c1 + c2) + 65536 * (c2 + c3) + 16777216 * c3 + (c2 + c3 + 256 * c3)) % 4294967296
+      = (c0 + c1 + c2 + c3) + 256 * (c1 + c2 + c3) + 65536 * (c2 + c3) + 16777216 * c3 := by omega
+  rw [e6, e7, e8]
+  clear e1 e2 e3 e4 e5 e6 e7 e8 b1 b2 b3 b4
+  omega
+
+theorem wT16_bounds (y : Nat) : wT16 y ≤ 3855 ∧ wT16 y % 256 ≤ 15 := by
+  unfold wT16 wg3
+  generalize wg2 0x3333 (wg1 0x5555 y) + wg2 0x3333 (wg1 0x5555 y) >>> 4 = Z
+  refine ⟨Nat.and_le_right, ?_⟩
+  have := @Nat.and_mod_two_pow Z 0x0F0F 8
+  have h3 : Z % 2 ^ 8 &&& 0x0F0F % 2 ^ 8 ≤ 0x0F0F % 2 ^ 8 := Nat.and_le_right
+  norm_num at this h3; omega
+
+theorem u32Weight_split (x : Nat) (hx : x < 2 ^ 32) :
+    u32Weight x = u16Weight (x % 65536) + u16Weight (x / 65536) := by
+  have hlo : x % 65536 < 65536 := Nat.mod_lt _ (by norm_num)
+  have hhi : x / 65536 < 65536 := by omega
+  have hxx : x = x % 65536 + 65536 * (x / 65536) := by omega
+  rw [u16Weight_lanes _ hlo, u16Weight_lanes _ hhi]
+  generalize x % 65536 = lo at *
+  generalize x / 65536 = hi at *
+  subst hxx
+  have hl := wlanes32 lo hi hlo hhi
+  obtain ⟨b1, b2⟩ := wT16_bounds lo
+  obtain ⟨b3, b4⟩ := wT16_bounds hi
+  unfold u32Weight
+  simp only []
+  rw [show wg3 0x0F0F (wg2 0x3333 (wg1 0x5555 lo)) = wT16 lo from rfl,
+    show wg3 0x0F0F (wg2 0x3333 (wg1 0x5555 hi)) = wT16 hi from rfl] at hl
+  unfold wg2 at hl
+  rw [hl]
+  have e3f : (0x0000003F : Nat) = 2 ^ 6 - 1 := by norm_num
+  rw [e3f, Nat.and_two_pow_sub_one_eq_mod]
+  simp only [Nat.shiftRight_eq_div_pow, Nat.reducePow]
+  exact tail32 (wT16 lo) (wT16 hi) b1 b2 b3 b4
+
+theorem popN_add (a b : Nat) : ∀ x, popN (a + b) x = popN a x + popN b (x / 2 ^ a) := by
+  induction a with
+  | zero => intro x; simp [popN]
+  | succ a ih =>
+    intro x
+    have e : a + 1 + b = (a + b) + 1 := by omega
+    rw [e, popN, popN, ih (x / 2), Nat.div_div_eq_div_mul, Nat.pow_succ, Nat.mul_comm 2]
+    omega
+
+theorem popN_mod : ∀ (k x : Nat), popN k x = popN k (x % 2 ^ k) := by
+  intro k
+  induction k with
+  | zero => intro x; rfl
+  | succ k ih =>
+    intro x
+    have e1 : x % 2 ^ (k + 1) % 2 = x % 2 := by
+      rw [Nat.pow_succ, Nat.mul_comm, Nat.mod_mul_right_mod]
+    have e2 : x % 2 ^ (k + 1) / 2 = x / 2 % 2 ^ k := by
+      rw [Nat.pow_succ, Nat.mul_comm, Nat.mod_mul_right_div_self]
+    rw [popN, popN, e1, e2, ih (x / 2), ih (x / 2 % 2 ^ k), Nat.mod_mod]
+
+theorem u16Weight_pop (y : Nat) (hy : y < 65536) : u16Weight y = popN 16 y :=
+  (chk16_unpack (chk16_all y hy)).2.2.1
+
+theorem u32Weight_gen (x : Nat) (hx : x < 2 ^ 32) : u32Weight x = popN 32 x := by
+  have hlo : x % 65536 < 65536 := Nat.mod_lt _ (by norm_num)
+  have hhi : x / 65536 < 65536 := by omega
+  rw [u32Weight_split x hx, u16Weight_pop _ hlo, u16Weight_pop _ hhi,
+    show (32 : Nat) = 16 + 16 from rfl, popN_add, popN_mod 16 x]
+  norm_num
+
+end Bits
+
 end Bee2V.C05
